@@ -30,8 +30,10 @@ REPO = os.environ.get("VF_REPO", "/repo")
 
 STD_CHECKS = ["--bounds-check", "--pointer-check", "--pointer-overflow-check",
               "--div-by-zero-check", "--undefined-shift-check",
-              "--signed-overflow-check", "--conversion-check",
-              "--pointer-primitive-check"]
+              "--signed-overflow-check", "--pointer-primitive-check"]
+# --conversion-check is deliberately NOT a standard check: it flags narrowing conversions
+# to unsigned types (uint8_t)(x << 2), which are well defined in C and used on purpose
+# by the codecs, hashes and bignum code; jobs may add it where it is meaningful.
 # cmake feature macros of the project's own build (CMakeLists.txt checks), needed
 # when a src/*.c file is #included into a harness translation unit
 SRC_DEFINES = ["-D_GNU_SOURCE", "-DLINUX", "-D__USE_GNU=1", "-DHAVE_MEMMEM",
@@ -269,6 +271,17 @@ def run_job(job, prop_id, workroot, tier):
         cur = nxt
         return True
 
+    # loop-contract files may be templates over the job's foreach row (${FN} ...)
+    loops_file = None
+    if job.get("loops"):
+        loops_file = os.path.join(VERIF, job["loops"])
+        if job.get("_row"):
+            loops_file = os.path.join(wd, "loops.json")
+            with open(os.path.join(VERIF, job["loops"])) as lf:
+                txt = subst(lf.read(), job["_row"])
+            with open(loops_file, "w") as lf:
+                lf.write(txt)
+
     for args in job.get("pre_instrument", []):
         if not gi(list(args), "goto-instrument (pre)"):
             res.total_s = time.time() - t_start
@@ -283,7 +296,7 @@ def run_job(job, prop_id, workroot, tier):
         for f in job.get("replace", []):
             args += ["--replace-call-with-contract", f]
         if job.get("loops"):
-            args += ["--loop-contracts-file", os.path.join(VERIF, job["loops"]), "--apply-loop-contracts"]
+            args += ["--loop-contracts-file", loops_file, "--apply-loop-contracts"]
         elif job.get("inline_loop_contracts"):
             args += ["--apply-loop-contracts"]
         args += job.get("dfcc_flags", [])
@@ -291,7 +304,7 @@ def run_job(job, prop_id, workroot, tier):
             res.total_s = time.time() - t_start
             return res
     elif job.get("loops"):
-        args = ["--loop-contracts-file", os.path.join(VERIF, job["loops"]), "--apply-loop-contracts"]
+        args = ["--loop-contracts-file", loops_file, "--apply-loop-contracts"]
         if not gi(args, "goto-instrument --apply-loop-contracts"):
             res.total_s = time.time() - t_start
             return res
@@ -346,6 +359,16 @@ def run_job(job, prop_id, workroot, tier):
     canaries = [p for p in res.props if p["kind"] == "canary"]
     real = [p for p in res.props if p["kind"] != "canary"]
     res.failed = [p for p in real if p["status"] == "FAILURE"]
+    if not job.get("unwind_violation", False):
+        # a failed unwinding assertion means "unwind bound too small for this code": that is
+        # an undecided run, not a property violation - unless the job declares the bound to
+        # be the loop's type bound (termination clause), see DESIGN 3.1
+        uw = [p for p in res.failed if p["kind"] == "unwind"]
+        res.failed = [p for p in res.failed if p["kind"] != "unwind"]
+        if uw and not res.failed:
+            res.reason = "unwinding assertion failed (%s at %s:%s): bound too small, nothing decided" % (
+                uw[0]["name"], uw[0]["file"], uw[0]["line"])
+            return res
     if res.failed:
         res.status = "violation"
         return res
@@ -379,7 +402,12 @@ def load_known():
     if not os.path.exists(p):
         return []
     with open(p) as f:
-        return json.load(f).get("entries", [])
+        ents = json.load(f).get("entries", [])
+    import glob
+    for frag in sorted(glob.glob(os.path.join(VERIF, "known_findings.d", "*.json"))):
+        with open(frag) as f:
+            ents += json.load(f).get("entries", [])
+    return ents
 
 
 def match_known(known, prop_id, job, p, inputs):
